@@ -266,7 +266,7 @@ Fixpoint isize (s : ist) : nat :=
 with ilsize (q : ilst) : nat :=
   match q with
   | IChunk _ p => S (2 * isize p)
-  | IRuns _ _ _ p => S (S ((if pk_has p then 1 else 0) + 2 * isize (pk_in p)))
+  | IRuns r _ cur p => S (S (runs_w r cur (pk_has p) (pk_curr p) + 3 * isize (pk_in p)))
   end.
 
 Fixpoint inext (fuel : nat) (s : ist) {struct fuel} : ret Z ist :=
